@@ -19,6 +19,9 @@ add_module / remove_module calls; it never calls the model's transition function
     and each notification reached each module registered for that hook exactly once (and no
     other module); an accepted holder move / mint consulted each registered verdict module once;
   * the registry getter agrees with the ghost registry;
+  * all of this also when the destination of a `transfer` is a MUXED address (account + id; the
+    op line's `lu=` carries the id): same gates, same balance movement, exactly one notification
+    with the underlying account as `to`, event replay on the underlying account;
   * C01 for this flavour: supply = sum of balances, no negative balance, failed call = no change,
     replay of the emitted mint / burn / transfer events reproduces every balance.
 -/
@@ -291,6 +294,11 @@ def replayEv (b : List Int) (ev : List String) : List Int :=
   | ["mint", t, a] => match t.toNat?, a.toInt? with | some t, some a => addAt b t a | _, _ => b
   | ["burn", f, a] => match f.toNat?, a.toInt? with | some f, some a => addAt b f (-a) | _, _ => b
   | ["transfer", f, t, a] =>
+    match f.toNat?, t.toNat?, a.toInt? with
+    | some f, some t, some a => addAt (addAt b f (-a)) t a
+    | _, _, _ => b
+  -- a transfer event that carries a `to_muxed_id`: `to` is still the underlying account
+  | ["transfer", f, t, a, _] =>
     match f.toNat?, t.toNat?, a.toInt? with
     | some f, some t, some a => addAt (addAt b f (-a)) t a
     | _, _, _ => b
